@@ -250,7 +250,7 @@ func crashCases(tier string) []crashCase {
 	sizes := []struct {
 		n string
 		c int
-	}{{"empty", 0}, {"one", 1}, {"sixty", 60}, {"big", 3000}}
+	}{{"empty", 0}, {"one", 1}, {"sixty", 60}, {"big", 600}} // (3000 jobs made the 64 triples of the thorough tier run for more than two hours)
 	if tier != "thorough" {
 		sizes[3].c = 200
 	}
